@@ -97,6 +97,15 @@ pub fn with_ep_slider_family(mut plan: Plan, tier: Tier) -> Plan {
     plan
 }
 
+/// For medium-cost oracles: the en-passant positions with one enemy slider anywhere, judged as
+/// positions (no children), in the quick tier.
+pub fn with_ep_slider_positions(mut plan: Plan, tier: Tier) -> Plan {
+    if tier == Tier::Quick {
+        plan.families.push((Box::new(EpFamily { extra: Extra::EnemySlider, pre_push: false }), 0));
+    }
+    plan
+}
+
 pub fn krk_closure() -> (String, Vec<Box<dyn Family>>) {
     (
         "KRK (either colour's rook) closure".into(),
